@@ -306,22 +306,22 @@ def tableCheck (t : List Entry) : Bool :=
   | some rows => rows.all checkRow
   | none => false
 
-/-- Purely syntactic: the nearest class, walking single-parent links upwards from `id`, whose
-    body `def`s `m`. -/
-def mostDerivedDef (t : List Entry) (m : Meth) : Nat → Nat → Option Nat
+/-- Purely syntactic: walking the bases upwards from `id`, the function written by the nearest
+    class whose body `def`s `m` (or binds it to a module-level function). A body that re-binds an
+    inherited wrapper (`m = Base.m`, validated by `tableCheck`) is looked through. -/
+def mostDerivedDef (t : List Entry) (m : Meth) : Nat → Nat → Option Fn
   | 0, _ => none
   | fuel + 1, id =>
     match t.find? (fun e => e.id == id) with
     | none => none
     | some e =>
       match e.meth.get m with
-      | .def_ => some id
-      | .absent =>
-        -- first parent (in base order) that has any definition up its own line
+      | .def_ => some (.user id m)
+      | .extfn k => some (.ext k)
+      | _ =>
         e.parents.foldl (fun acc p => match acc with
           | some x => some x
           | none => mostDerivedDef t m fuel p) none
-      | _ => none
 
 /-- For every table class and hooked method: the slot found on the class is the `def` of the
     nearest defining class (syntactic walk), and the attribute is the wrapper. -/
@@ -331,7 +331,7 @@ def slotIsMostDerivedDef (t : List Entry) : Bool :=
   | some rows => rows.all fun r => Meth.all.all fun m =>
       !hooked r.anc m ||
         (lookupAttr m r.mro == some (.wrapper m) &&
-         lookupSlot m r.mro == (mostDerivedDef t m (t.length + 1) r.id).map (fun d => Fn.user d m))
+         lookupSlot m r.mro == mostDerivedDef t m (t.length + 1) r.id)
 
 /-! ### Standard classes used in examples (ids as in the generated table) -/
 
